@@ -91,7 +91,7 @@ def gen(rng, tier, index):
             opts["retain"] = rng.choice([True, False])
     if rng.random() < 0.35:
         opts["event_callback"] = None  # the documented default: no callback
-    return {"cfg": {"flavour": flavour, "opts": opts, "readme": False, "node_version": version_strings(rng),
+    return {"cfg": {"flavour": flavour, "opts": opts, "readme": False, "node_version": version_strings(rng), "node_sub": rng.choice([17, 17, 18]),
                     "connect_plan": rng.choice([["ok"], ["fail", "ok"], ["fail", "fail", "ok"], ["timeout", "ok"]]
                                                + ([["unreach", "ok"], ["unreach", "fail", "ok"]] if flavour in ("tcp", "atcp") else []))}}
 
@@ -201,7 +201,8 @@ def run(case):
                         violations.append(_vio("option-not-honoured", {"probe_times": ptimes, "rt": rt}, option="reconnect_timeout(probe)"))
                     probes["probe_spacing_checked"] = 1
             # ---- callback, persistence, prefixes ------------------------------------------------
-            _send(world, broker, "1;255;0;0;17;" + str(cfg["node_version"] if _plausible(cfg["node_version"]) else "2.0"))
+            # (a repeater node presents itself with sub-type 18; it carries the library version like 17 does)
+            _send(world, broker, f"1;255;0;0;{cfg.get('node_sub', 17)};" + str(cfg["node_version"] if _plausible(cfg["node_version"]) else "2.0"))
             _send(world, broker, "1;1;0;0;3;light")
             no_cb = "event_callback" in opts and opts["event_callback"] is None
             if not world.callbacks and not no_cb:
@@ -296,6 +297,25 @@ def run(case):
                         violations.append(_vio("option-not-honoured", {"note": "state held at stop() is not what the persistence file restores",
                                                                        "callback": "none" if no_cb else "given"},
                                                option="persistence", callback="none" if no_cb else "given"))
+                    elif not violations:
+                        # ... and through the documented API of this gateway class: restored when start_persistence() returns
+                        world.build()
+                        world.device.connect_plan = []
+                        try:
+                            world.start(persistence=True)
+                            restored = world.after_start_persistence
+                            world.stop()
+                            world.settle()
+                        except (kernel.SimAbort, kernel.Deadlock):
+                            raise
+                        except Exception as exc:  # pylint: disable=broad-except
+                            restored = {"start/stop raised": repr(exc)}
+                        if restored != held:
+                            violations.append(_vio("option-not-honoured", {"note": "start_persistence() returned without the saved state in place",
+                                                                           "restored_nodes": sorted(restored, key=repr)[:6], "held_nodes": sorted(held, key=repr)[:6]},
+                                                   option="persistence(start_persistence)"))
+                        else:
+                            probes["restore_through_start_persistence_checked"] = 1
                     probes["persistence_effect_checked"] = 1
             elif fs.files:
                 violations.append(_vio("option-not-honoured", {"note": "file written without persistence", "files": sorted(fs.files)},
